@@ -538,17 +538,17 @@ func main() {
 	cat := [][]op{
 		{G(1), L, R},
 		{S(1, 11, 3600), G(1), S(1, 12, 3601), G(1), L, R},
-		{S(1, 11, -3600), G(1), L},                                    // already expired: Store is a no-op
-		{S(1, 11, 3600), S(1, 12, -3600), G(1), L},                    // ... and does not overwrite
-		{S(1, 11, 3600), F, G(1), L, S(1, 12, 3600), G(1)},            // flush, store again
-		{S(1, 11, 3600), S(65, 12, 3700), GC(3600), G(1), G(65), L},   // sweep exactly at the expiry: kept
-		{S(1, 11, 3600), S(65, 12, 3700), GC(3601), G(1), G(65), L},   // one second later: removed
-		{S(1, 11, 3600), S(65, 12, 3700), GC(100000), L, R},           // everything removed
+		{S(1, 11, -3600), G(1), L},                                                          // already expired: Store is a no-op
+		{S(1, 11, 3600), S(1, 12, -3600), G(1), L},                                          // ... and does not overwrite
+		{S(1, 11, 3600), F, G(1), L, S(1, 12, 3600), G(1)},                                  // flush, store again
+		{S(1, 11, 3600), S(65, 12, 3700), GC(3600), G(1), G(65), L},                         // sweep exactly at the expiry: kept
+		{S(1, 11, 3600), S(65, 12, 3700), GC(3601), G(1), G(65), L},                         // one second later: removed
+		{S(1, 11, 3600), S(65, 12, 3700), GC(100000), L, R},                                 // everything removed
 		{S(5, 1, 3600), S(69, 2, 3600), S(133, 3, 3600), G(5), G(69), G(133), G(197), L, R}, // one shard
 		{S(5, 1, 3600), S(6, 2, 3600), S(1<<63+5, 3, 3600), G(5), G(6), G(1<<63 + 5), L},
-		append(append([]op{}, full16...), L, S(7+64*16, 999, 3600), L, R),                // 17th key of a shard evicts one
-		append(append([]op{}, full16...), S(7, 998, 3600), L, G(7), R),                    // overwrite in a full shard evicts too
-		append(append([]op{}, full16...), S(8, 997, 3600), L, GC(3601), L),                // another shard is not affected
+		append(append([]op{}, full16...), L, S(7+64*16, 999, 3600), L, R),  // 17th key of a shard evicts one
+		append(append([]op{}, full16...), S(7, 998, 3600), L, G(7), R),     // overwrite in a full shard evicts too
+		append(append([]op{}, full16...), S(8, 997, 3600), L, GC(3601), L), // another shard is not affected
 	}
 	for i, ops := range cat {
 		for _, size := range []int{0, 1087, 1088} {
